@@ -181,7 +181,10 @@ def run(res, tier, seed):
                                    ("GeomLemmas", "WindowInsideNoCrop", "Error", "without the crop-inside precondition the window leaves the source (counter-example expected)"),
                                    ("FixedLemmas", "ClipIndexOK", "NoError", "clip index inside the table for sum|k| < 2.5 * 2^p, all precisions"),
                                    ("FixedLemmas", "ClipIndexNorm", "NoError", "normalised windows (sum k = 2^p) with sum|k| < 4 * 2^p stay inside the table"),
-                                   ("FixedLemmas", "ClipIndexBad", "Error", "sum|k| < 4 * 2^p alone does not (counter-example expected)")):
+                                   ("FixedLemmas", "ClipIndexBad", "Error", "sum|k| < 4 * 2^p alone does not (counter-example expected)"),
+                                   ("FixedLemmas", "AccFits32", "NoError", "i32 accumulator of the 8-bit kernels cannot overflow: sum|k| < 4 * 2^p, p <= 21, any samples"),
+                                   ("FixedLemmas", "AccFits64", "NoError", "i64 accumulator of the 16-bit kernels cannot overflow: sum|k| < 4 * 2^p, p <= 45, any samples"),
+                                   ("FixedLemmas", "AccBad32", "Error", "at p = 22 the i32 accumulator can overflow (counter-example expected): the precision cap is necessary")):
         a = vlib.run_apalache(m, inv)
         res.add_lemma(a, expect, what)
         if a["result"] != expect:
